@@ -570,8 +570,10 @@ impl BuildJob<'_> {
                     log_err!("{:?}: rename {:?}: {}", t, tmp_name, e);
                     rv = EXIT_BUILD_JOB_ERROR;
                 }
-            } else {
+            } else if rv == EXIT_SUCCESS {
                 // no output generated at all; that's ok
+                // (but if stdout could not be copied above, leave the old
+                // target alone: its replacement was lost, not empty.)
 
                 // TODO(maybe): Remove EISDIR/EPERM exception or remove directory?
                 // Needed for makedir2 test. :(
